@@ -92,7 +92,9 @@ type streamSpec struct {
 	WD     bool   `json:"wd"`     // the final chunk is returned together with the end error
 	WLimit int    `json:"wlimit"` // -1: accepts everything; else total bytes accepted before the write fault
 	WKind  int    `json:"wkind"`  // 0: fault = error, 1: fault = short write without error
-	Gate   int    `json:"gate"`   // -1 none; else: bytes from this offset on are released only after CloseWrite on this endpoint
+	Gate   int    `json:"gate"`   // -1 none; else: bytes from this offset on are released only after this endpoint was half-closed
+	//                               (or, when its wrapping makes the half-close invisible, after the peer reported its end)
+	Wrap int `json:"wrap"` // how the endpoint is handed to the relay, see wrapEndpoint
 }
 
 type streamFake struct {
@@ -118,6 +120,29 @@ type streamFake struct {
 	wlimit      int
 	wkind       int
 	ioAfterClos int
+
+	hcInvisible bool   // the wrapping turns tryCloseWrite into a no-op: the gate opens on the peer's end instead
+	peerEnded   *int32 // set (atomically) by the peer endpoint when it has reported its end to the relay
+	selfEnded   int32
+	onEnd       func()
+	slept       bool
+}
+
+func (f *streamFake) released() bool {
+	return f.cw > 0 || (f.hcInvisible && f.peerEnded != nil && atomic.LoadInt32(f.peerEnded) == 1)
+}
+
+func (f *streamFake) wake() {
+	f.mu.Lock()
+	f.cond.Broadcast()
+	f.mu.Unlock()
+}
+
+func (f *streamFake) markEnded() {
+	f.ended = true
+	if atomic.SwapInt32(&f.selfEnded, 1) == 0 && f.onEnd != nil {
+		go f.onEnd()
+	}
 }
 
 func newStreamFake(name string, s streamSpec, log *evlog, spin chan string) *streamFake {
@@ -145,9 +170,19 @@ func (f *streamFake) Read(p []byte) (int, error) {
 			f.ioAfterClos++
 			return 0, errClosed
 		}
-		if f.gate >= 0 && f.pos >= f.gate && f.cw == 0 && f.pos < len(f.data) {
-			f.cond.Wait() // the peer only talks again after it has seen our half-close
-			continue
+		if f.gate >= 0 && f.pos >= f.gate && f.pos < len(f.data) {
+			if !f.released() {
+				f.cond.Wait() // the peer only talks again after it has seen our half-close
+				continue
+			}
+			if f.cw == 0 && !f.slept {
+				// opened by the peer's end: give the relay time to run its (invisible) tryCloseWrite on us
+				f.slept = true
+				f.mu.Unlock()
+				time.Sleep(5 * time.Millisecond)
+				f.mu.Lock()
+				continue
+			}
 		}
 		break
 	}
@@ -163,7 +198,7 @@ func (f *streamFake) Read(p []byte) (int, error) {
 				select {} // park the spinning goroutine for ever
 			}
 		}
-		f.ended = true
+		f.markEnded()
 		return 0, f.endErr()
 	}
 	k := len(f.data) - f.pos
@@ -180,13 +215,13 @@ func (f *streamFake) Read(p []byte) (int, error) {
 	if k > len(f.data)-f.pos {
 		k = len(f.data) - f.pos
 	}
-	if f.gate >= 0 && f.cw == 0 && f.pos < f.gate && f.pos+k > f.gate {
+	if f.gate >= 0 && !f.released() && f.pos < f.gate && f.pos+k > f.gate {
 		k = f.gate - f.pos
 	}
 	copy(p, f.data[f.pos:f.pos+k])
 	f.pos += k
 	if f.wd && f.pos >= len(f.data) {
-		f.ended = true
+		f.markEnded()
 		return k, f.endErr()
 	}
 	return k, nil
@@ -215,13 +250,89 @@ func (f *streamFake) Write(p []byte) (int, error) {
 	return len(p), nil
 }
 
-func (f *streamFake) CloseWrite() error {
+func (f *streamFake) halfClose(tag string) error {
 	f.mu.Lock()
 	f.cw++
 	f.cond.Broadcast()
 	f.mu.Unlock()
-	f.log.add("cw:" + f.name)
+	f.log.add(tag + ":" + f.name)
 	return nil
+}
+
+func (f *streamFake) CloseWrite() error { return f.halfClose("cw") }
+
+// ---------------------------------------------------------------------------------------------
+// how an endpoint is handed to the relay: the REAL constructors of internal/utils/iocopy, in the
+// configurations the client call sites use (internal/client/mapping/base.go, target_handler.go createTunnelRWC,
+// socks5_tunnel.go forwardData: NewReadWriteCloser(streamReader, streamWriter, closeFunc); with GetReader/
+// GetWriter == nil the reader/writer is the net.Conn itself, i.e. a writer that HAS CloseWrite) and the others
+// ---------------------------------------------------------------------------------------------
+
+type readerOnly struct{ f *streamFake }
+
+func (r readerOnly) Read(p []byte) (int, error) { return r.f.Read(p) }
+
+type writerOnly struct{ f *streamFake } // an io.Writer without CloseWrite (a stream-processor writer)
+
+func (w writerOnly) Write(p []byte) (int, error) { return w.f.Write(p) }
+
+type writerCW struct{ f *streamFake } // an io.Writer with CloseWrite (a *net.TCPConn used as writer)
+
+func (w writerCW) Write(p []byte) (int, error) { return w.f.Write(p) }
+func (w writerCW) CloseWrite() error           { return w.f.CloseWrite() }
+
+type rawNoCW struct{ f *streamFake } // io.ReadWriteCloser without CloseWrite
+
+func (r rawNoCW) Read(p []byte) (int, error)  { return r.f.Read(p) }
+func (r rawNoCW) Write(p []byte) (int, error) { return r.f.Write(p) }
+func (r rawNoCW) Close() error                { return r.f.Close() }
+
+// expected (CloseWrite reaching the endpoint, closeWriteFunc calls, Close reaching the endpoint) per wrap:
+// proved for the model as Properties/C12.v C12_wrapper_dispatch_table
+var wrapExpect = [7][3]int{{1, 0, 1}, {0, 0, 1}, {0, 0, 1}, {1, 0, 1}, {0, 1, 1}, {0, 1, 1}, {0, 0, 0}}
+
+func wrapInvisible(wrap int) bool { return wrap == 1 || wrap == 2 || wrap == 6 }
+
+func wrapEndpoint(f *streamFake, wrap int) io.ReadWriteCloser {
+	var rwc io.ReadWriteCloser
+	var err error
+	cwf := func() error { return f.halfClose("cwf") }
+	switch wrap {
+	case 0:
+		return f
+	case 1:
+		return rawNoCW{f}
+	case 2:
+		rwc, err = iocopy.NewReadWriteCloser(readerOnly{f}, writerOnly{f}, f.Close)
+	case 3:
+		rwc, err = iocopy.NewReadWriteCloser(readerOnly{f}, writerCW{f}, f.Close)
+	case 4:
+		rwc, err = iocopy.NewReadWriteCloserWithCloseWrite(readerOnly{f}, writerOnly{f}, f.Close, cwf)
+	case 5:
+		rwc, err = iocopy.NewReadWriteCloserWithCloseWrite(readerOnly{f}, writerCW{f}, f.Close, cwf)
+	case 6:
+		rwc, err = iocopy.NewReadWriteCloser(readerOnly{f}, writerOnly{f}, nil)
+	default:
+		panic("bad wrap")
+	}
+	must(err)
+	return rwc
+}
+
+// checkWrapEvents: the half-close / close calls that reached endpoint `name`, against its configuration
+func checkWrapEvents(out *caseOut, tag, name string, wrap int, evs []string) {
+	n := map[string]int{}
+	for _, e := range evs {
+		n[e]++
+	}
+	w := wrapExpect[wrap]
+	if n["cw:"+name] != w[0] || n["cwf:"+name] != w[1] {
+		out.fail(tag+"-half-close-count", "endpoint %s (wrap %d): CloseWrite reached it %d times and closeWriteFunc ran %d times (want %d / %d)",
+			name, wrap, n["cw:"+name], n["cwf:"+name], w[0], w[1])
+	}
+	if n["close:"+name] != w[2] {
+		out.fail(tag+"-close-count", "endpoint %s (wrap %d): Close reached it %d times (want %d)", name, wrap, n["close:"+name], w[2])
+	}
 }
 
 func (f *streamFake) Close() error {
@@ -251,6 +362,9 @@ type dgramFake struct {
 	closed   bool
 	closes   int
 	ioAfterC int
+
+	selfEnded int32
+	onEnd     func()
 }
 
 func (f *dgramFake) Read(p []byte) (int, error) {
@@ -263,6 +377,9 @@ func (f *dgramFake) Read(p []byte) (int, error) {
 	if len(f.in) == 0 {
 		e := f.end
 		f.mu.Unlock()
+		if atomic.SwapInt32(&f.selfEnded, 1) == 0 && f.onEnd != nil {
+			go f.onEnd()
+		}
 		if e == 0 {
 			return 0, io.EOF
 		}
@@ -348,8 +465,10 @@ func runUDP(dgrams [][]byte, uend, pauseAt, uwfail int, tun streamSpec, big bool
 	spin := make(chan string, 2)
 	u := &dgramFake{log: log, in: dgrams, pauseAt: pauseAt, end: uend, wfail: uwfail}
 	t := newStreamFake("tunnel", tun, log, spin)
+	t.hcInvisible, t.peerEnded, u.onEnd = wrapInvisible(tun.Wrap), &u.selfEnded, t.wake
+	tconn := wrapEndpoint(t, tun.Wrap)
 	done := make(chan *iocopy.Result, 1)
-	go func() { done <- iocopy.UDP(u, t, &iocopy.Options{LogPrefix: "verif"}) }()
+	go func() { done <- iocopy.UDP(u, tconn, &iocopy.Options{LogPrefix: "verif"}) }()
 	o := &udpObs{}
 	var res *iocopy.Result
 	select {
@@ -459,7 +578,7 @@ func refRecords(s []byte) (recs [][]byte, tail int) {
 	return recs, 0
 }
 
-func checkUDPCommon(out *caseOut, tag string, o *udpObs, expectClosed bool) {
+func checkUDPCommon(out *caseOut, tag string, o *udpObs, wrap int) {
 	if o.Spin != "" {
 		out.fail("udp-spin-after-tunnel-end", "%s: iocopy.UDP read the %s endpoint more than %d times after it had reported its end (busy loop, never returns)", tag, o.Spin, spinLimit)
 		return
@@ -472,8 +591,23 @@ func checkUDPCommon(out *caseOut, tag string, o *udpObs, expectClosed bool) {
 	for _, e := range o.Events {
 		nc[e]++
 	}
-	if nc["close:udp"] != 1 || nc["close:tunnel"] != 1 {
-		out.fail("udp-close-count", "%s: endpoints closed %d/%d times (want exactly once each)", tag, nc["close:udp"], nc["close:tunnel"])
+	if nc["close:udp"] != 1 {
+		out.fail("udp-close-count", "%s: UDP endpoint closed %d times (want exactly once)", tag, nc["close:udp"])
+	}
+	checkWrapEvents(out, "udp", "tunnel", wrap, o.Events)
+	// the tunnel must not be closed before the UDP side's half-close of it (tunnel -> UDP may still be flowing)
+	first := map[string]int{}
+	for i, e := range o.Events {
+		if _, ok := first[e]; !ok {
+			first[e] = i
+		}
+	}
+	if ci, ok := first["close:tunnel"]; ok {
+		for _, k := range []string{"cw:tunnel", "cwf:tunnel"} {
+			if hi, ok2 := first[k]; ok2 && ci < hi {
+				out.fail("udp-early-close", "%s: the tunnel was closed before it was half-closed (events %v)", tag, o.Events)
+			}
+		}
 	}
 	if o.IOAfterCl != 0 {
 		out.fail("udp-io-after-close", "%s: %d Read/Write calls hit an endpoint that iocopy.UDP had already closed", tag, o.IOAfterCl)
@@ -486,7 +620,7 @@ func runUDPCase(c *caseIn, out *caseOut) {
 	case "udp":
 		o, tw, got := runUDP(ds, c.UEnd, c.PauseAt, c.UWFail, c.Tunnel, c.Big)
 		out.U1 = o
-		checkUDPCommon(out, "udp", o, true)
+		checkUDPCommon(out, "udp", o, c.Tunnel.Wrap)
 		if !out.PropOK {
 			return
 		}
@@ -506,7 +640,7 @@ func runUDPCase(c *caseIn, out *caseOut) {
 	case "rt":
 		o1, tw, _ := runUDP(ds, 0, c.PauseAt, -1, streamSpec{WLimit: -1, Gate: -1}, c.Big)
 		out.U1 = o1
-		checkUDPCommon(out, "relay#1", o1, true)
+		checkUDPCommon(out, "relay#1", o1, 0)
 		if !out.PropOK {
 			return
 		}
@@ -543,7 +677,7 @@ func runUDPCase(c *caseIn, out *caseOut) {
 			out.fail("udp-spin-after-tunnel-end", "relay#2: tunnel stream of %d bytes ended at offset %d (mid-record=%v): iocopy.UDP kept reading the ended tunnel (> %d reads after the end) and never returns", len(tw), len(stream), midRecord, spinLimit)
 			return
 		}
-		checkUDPCommon(out, "relay#2", o2, true)
+		checkUDPCommon(out, "relay#2", o2, t2.Wrap)
 		if !out.PropOK {
 			return
 		}
@@ -594,10 +728,13 @@ func runTCPCase(c *caseIn, out *caseOut) {
 	spin := make(chan string, 2)
 	a := newStreamFake("a", c.A, log, spin)
 	b := newStreamFake("b", c.B, log, spin)
+	a.hcInvisible, a.peerEnded, b.onEnd = wrapInvisible(c.A.Wrap), &b.selfEnded, a.wake
+	b.hcInvisible, b.peerEnded, a.onEnd = wrapInvisible(c.B.Wrap), &a.selfEnded, b.wake
+	connA, connB := wrapEndpoint(a, c.A.Wrap), wrapEndpoint(b, c.B.Wrap)
 	var onDone int32
 	done := make(chan *iocopy.Result, 1)
 	go func() {
-		done <- iocopy.Bidirectional(a, b, &iocopy.Options{LogPrefix: "verif",
+		done <- iocopy.Bidirectional(connA, connB, &iocopy.Options{LogPrefix: "verif",
 			OnComplete: func(s, r int64, e error) { atomic.AddInt32(&onDone, 1) }})
 	}()
 	o := &tcpObs{}
@@ -651,25 +788,21 @@ func runTCPCase(c *caseIn, out *caseOut) {
 	if c.A.WLimit < 0 && len(toA) != len(db) {
 		out.fail("tcp-b2a-incomplete", "B sent %d bytes, A received %d (A accepts everything)", len(db), len(toA))
 	}
-	// half-close each side exactly once, full close exactly once, and only after both half-closes
-	idx := map[string][]int{}
+	// the half-close reaches each endpoint exactly as its wrapping dispatches it, the full close exactly once
+	// (never, when closeFunc is nil), and no endpoint is fully closed before every half-close has happened
+	checkWrapEvents(out, "tcp", "a", c.A.Wrap, o.Events)
+	checkWrapEvents(out, "tcp", "b", c.B.Wrap, o.Events)
+	firstClose, lastHalf := -1, -1
 	for i, e := range o.Events {
-		idx[e] = append(idx[e], i)
-	}
-	if len(idx["cw:a"]) != 1 || len(idx["cw:b"]) != 1 {
-		out.fail("tcp-half-close-count", "CloseWrite called %d times on A and %d times on B (want once each)", len(idx["cw:a"]), len(idx["cw:b"]))
-	}
-	if len(idx["close:a"]) != 1 || len(idx["close:b"]) != 1 {
-		out.fail("tcp-close-count", "Close called %d times on A and %d times on B (want once each)", len(idx["close:a"]), len(idx["close:b"]))
-	}
-	if out.PropOK {
-		firstClose := idx["close:a"][0]
-		if idx["close:b"][0] < firstClose {
-			firstClose = idx["close:b"][0]
+		if len(e) > 6 && e[:6] == "close:" && firstClose < 0 {
+			firstClose = i
 		}
-		if firstClose < idx["cw:a"][0] || firstClose < idx["cw:b"][0] {
-			out.fail("tcp-early-close", "an endpoint was fully closed before both directions had finished (events %v)", o.Events)
+		if (len(e) > 3 && e[:3] == "cw:") || (len(e) > 4 && e[:4] == "cwf:") {
+			lastHalf = i
 		}
+	}
+	if firstClose >= 0 && firstClose < lastHalf {
+		out.fail("tcp-early-close", "an endpoint was fully closed before both directions had finished (events %v)", o.Events)
 	}
 	if o.IOAfterC != 0 {
 		out.fail("tcp-io-after-close", "%d Read/Write calls hit an endpoint Bidirectional had already closed", o.IOAfterC)
